@@ -339,6 +339,15 @@ qb_ipcc_recv(struct qb_ipcc_connection * c, void *msg_ptr,
 		return -EINVAL;
 	}
 
+	/*
+	 * A server that is known to be gone sends nothing more: hand out
+	 * what is still queued, but do not wait (for ever, with -1) for
+	 * a message that cannot come.
+	 */
+	if (!c->is_connected) {
+		ms_timeout = 0;
+	}
+
 	res = c->funcs.recv(&c->response, msg_ptr, msg_len, ms_timeout);
 	if (res >= 0) {
 		return res;
